@@ -15,7 +15,8 @@ RULE = ('Hypothesis draws a type map {governing value (INTEGER or OID) -> type f
         'gives, for a mapped governing value, the inner value decoded as the mapped type (same abstract content) and otherwise - '
         'and always with resolution off - a field holding exactly encode(inner value) (header and end-of-octets included); id, z '
         'and the remainder are unaffected; a caller-supplied openTypes map overrides the default one (also for values the '
-        'default map lacks). Non-trivial = constructed inner value, tagged ANY, SET container or override present; distinct = '
+        'default map lacks); the default map is filled before the container type is built, after it, or grown after it (it is '
+        'documented as held by reference). Non-trivial = constructed inner value, tagged ANY, SET container or override present; distinct = '
         'distinct (map, container, value, codec, switches).')
 ASSUMPTIONS = ['values are compared by abstract content (pv/core/absval.py)']
 SHARDS = {'quick': (16, 120), 'thorough': (16, 4000)}
@@ -47,7 +48,12 @@ def make_schema(case, override=False):
     for g, T in case['map']:
         inner[gov_py(gk, g)] = build.schema(T)
     keycls = univ.ObjectIdentifier if gk == 'OID' else univ.Integer
-    ot = opentype.OpenType('id', dict((keycls(k), s) for k, s in inner.items()))
+    # opentype.py documents the map as "stored by reference and can be mutated later to register new mappings":
+    # fill='late' registers every mapping after the container type exists, 'grow' the last one
+    entries = [(keycls(k), s) for k, s in inner.items()]
+    fill = case.get('fill', 'early')
+    tmap = dict(entries if fill == 'early' else entries[:-1] if fill == 'grow' else [])
+    ot = opentype.OpenType('id', tmap)
     f = case['field']
     any_ = univ.Any()
     if f in ('any-implicit',):
@@ -68,6 +74,7 @@ def make_schema(case, override=False):
     z = univ.Integer().subtype(implicitTag=ptag.Tag(ptag.tagClassContext, ptag.tagFormatSimple, 9))
     sch = cls(componentType=namedtype.NamedTypes(
         namedtype.NamedType('id', govs), namedtype.NamedType('blob', blob, openType=ot), namedtype.NamedType('z', z)))
+    tmap.update(entries)
     return sch, inner
 
 
@@ -214,6 +221,7 @@ def run_shard(desc, seed, tier, col):
         case = {'gov_kind': gk, 'map': mp, 'container': container, 'field': field, 'gov': gov, 'inner_type': Tin, 'inner_values': vals}
         if Tin['k'] in PERMISSIVE and not Tin.get('tags') and d.pct(60):
             case['override'] = d.pick(['with-flag', 'map-only'])
+        case['fill'] = d.pick(['early', 'early', 'late', 'grow'])
         return case
 
     def body(case):
@@ -221,7 +229,7 @@ def run_shard(desc, seed, tier, col):
         nontriv = ir.depth(Tin) >= 1 or case['field'] != 'any' or case['container'] == 'SET' or bool(case.get('override'))
         feats = ['field:' + case['field'], 'container:' + case['container'], 'gov:' + case['gov_kind'],
                  'mapped' if any(k == case['gov'] for k, _t in case['map']) else 'unmapped',
-                 'inner:constructed' if ir.depth(Tin) >= 1 else 'inner:primitive'] + (['override'] if case.get('override') else [])
+                 'inner:constructed' if ir.depth(Tin) >= 1 else 'inner:primitive'] + (['override'] if case.get('override') else []) + ['map-fill:' + case['fill']]
         col.case(case, nontriv, feats, sample={'map': [[k, ir.show_type(t)[:60]] for k, t in case['map']], 'container': case['container'],
                                                'field': case['field'], 'governing_value': case['gov'], 'inner_type': ir.show_type(Tin)[:80],
                                                'inner_values': absval.short(case['inner_values'], 100)})
